@@ -446,7 +446,7 @@ def plans(quick):
 def generate(ctx):
     """Generation machine: the abstract cases of this run (seeded sub-sample of the <= 6-object space)."""
     runs, cases, seen = [], [], set()
-    for n, (name, kw) in enumerate(plans(ctx.quick)):
+    for n, (name, kw) in enumerate(plans(ctx.quick or smoke())):
         r, cs = tlc_generate(ctx, name, seed=ctx.seed * 10 + n, **kw)
         runs.append(dict(kw, config=name, states=r.distinct, generated=r.generated, cases=len(cs), wall_s=round(r.wall, 1)))
         for c in cs:
@@ -526,3 +526,8 @@ def cap(n):
     except ValueError:
         k = 0
     return min(n, k) if k > 0 else n
+
+
+def smoke():
+    """VERIF_CAP set: smoke run of the thorough path (small TLC configs, capped replays)."""
+    return cap(10 ** 9) != 10 ** 9
